@@ -120,6 +120,30 @@ def staged_programs():
     return P
 
 
+GRAD_TABLE = [(m, st, n, 1, 1) for m, st, ns in SOLVER_TABLE for n in ns] + [
+    ('euler', 'ito', 'general', 2, 2), ('milstein', 'ito', 'diagonal', 2, 2), ('log_ode', 'stratonovich', 'general', 2, 2),
+    ('heun', 'stratonovich', 'general', 2, 2), ('reversible_heun', 'stratonovich', 'general', 2, 2), ('srk', 'ito', 'scalar', 2, 1),
+    ('midpoint', 'stratonovich', 'scalar', 2, 1)]
+
+
+def grad_programs():
+    """C08: backprop through two fixed steps of the real `integrate` (incl. interpolation and clipping) vs the forward derivative."""
+    from . import prog_grad as pg
+    P = []
+    for method, sde_type, noise, d, m in GRAD_TABLE:
+        variants = [False] + ([True] if method == 'milstein' and noise != 'additive' and d == 1 else [])
+        for gf in variants:
+            # two steps (second one clipped, interpolated output) except for the two schemes whose two-step gradient
+            # expression has ~10^6 nodes: those are traced over one (clipped) step; the loop's hand-over of the state between
+            # steps is the same code for every solver
+            heavy = (method == 'srk' and noise != 'additive') or d > 1
+            fn, sample, funcs = pg.make_grad(method, sde_type, noise, d, m, options={'grad_free': True} if gf else None,
+                                             nsteps=1 if heavy else 2)
+            P.append(Prog('grad_' + step_name(method, sde_type, noise, d, m, gf), 'Grad', fn, sample, funcs=funcs,
+                          rg=('y0', 'theta'), tol=1e-9, props=('C08',)))
+    return P
+
+
 def loop_programs():
     from . import prog_loop as pl
     P = []
@@ -213,4 +237,4 @@ def batch_programs():
 
 
 def all_programs():
-    return brownian_programs() + solver_programs() + loop_programs() + logqp_programs() + batch_programs() + staged_programs()
+    return brownian_programs() + solver_programs() + loop_programs() + logqp_programs() + batch_programs() + staged_programs() + grad_programs()
